@@ -152,6 +152,12 @@ def check_servo6(rep, prog, kal):
         rep.anchor_missing("SERVO-6", "no call of ensure_freq_init found")
 
 
+def _method_form(cl, cur):
+    """`self.clamp_adjustment(cur, _)`: the bound is read inside the method (checked there)"""
+    m = re.fullmatch(r"clamp_adjustment\(self, (.+?), (.+)\)", cl)
+    return bool(m and m.group(1) == cur)
+
+
 def _state_writes(ctx):
     rep = ctx.report
     rep.rule("SERVO-10", "the port state changes only through set_forced_port_state, the one place that replaces and "
@@ -212,6 +218,8 @@ def _run(ctx):
                         m = re.fullmatch(r"clamp_adjustment\((.+?), (.+), (.+?)\)", cl)
                         if m and m.group(1) == cur and m.group(3).endswith("config.max_freq_offset"):
                             ok = True
+                        if _method_form(cl, cur):
+                            ok = True
                     # SERVO-8: in floating point cur + (bound - cur) can exceed bound by one ulp; the programmed value
                     # itself must be the result of a clamp / min-max to +-max_freq_offset
                     a8 = arg
@@ -226,7 +234,8 @@ def _run(ctx):
                             ks = sorted(form.keys(), key=len)
                             cur, cl = ks[0], ks[1]
                             m = re.fullmatch(r"clamp_adjustment\((.+?), (.+), (.+?)\)", cl)
-                            ok = bool(m and m.group(1) == cur and m.group(3).endswith("config.max_freq_offset"))
+                            ok = bool(m and m.group(1) == cur and m.group(3).endswith("config.max_freq_offset")) or \
+                                _method_form(cl, cur)
                     if ok8:
                         rep.ok("SERVO-8", b.key, "programmed frequency is clamp(_, -max_freq_offset, max_freq_offset)", where=where)
                     else:
@@ -271,21 +280,26 @@ def _run(ctx):
         pb = df._Positional(ca)
         bad = []
         nrows = 0
+        # the roles of the parameters: (current, error, bound) for the free function, (self, current, error) with the
+        # bound read from self.config.max_freq_offset for the method form
+        A_CUR, A_ERR, A_BND = "arg1", "arg2", "arg3"
+        if ca.argc == 3 and ca.local_name(1) == "self":
+            A_CUR, A_ERR, A_BND = "arg2", "arg3", "arg1.config.max_freq_offset"
         for (bi, si, d) in c.d.whole.get(0, []):
             tr = c.prov.rvalue_tree(d[1]) if d[0] == "assign" else c.prov.call_tree(d[1])
             nrows += 1
             form = dict(df.lin(tr, pb))
-            form["arg1"] = form.get("arg1", 0) + 1          # current + result
+            form[A_CUR] = form.get(A_CUR, 0) + 1          # current + result
             form = {k: v for k, v in form.items() if v != 0}
             lits = c.must_literals(bi)
             lt = sorted(cnd.lit_canon(l, ca, True) for l in lits)
-            if form == {"arg3": 1} or form == {"arg3": -1}:
+            if form == {A_BND: 1} or form == {A_BND: -1}:
                 continue            # exactly +bound / -bound
-            if form == {"arg1": 1, "arg2": 1}:
-                up = any(l[0] == "cmp" and l[1] in ("le", "lt") and df.lin(l[2], pb) == {"arg1": 1, "arg2": 1} and
-                         df.lin(l[3], pb) == {"arg3": 1} for l in lits)
-                lo = any(l[0] == "cmp" and l[1] in ("ge", "gt") and df.lin(l[2], pb) == {"arg1": 1, "arg2": 1} and
-                         df.lin(l[3], pb) == {"arg3": -1} for l in lits)
+            if form == {A_CUR: 1, A_ERR: 1}:
+                up = any(l[0] == "cmp" and l[1] in ("le", "lt") and df.lin(l[2], pb) == {A_CUR: 1, A_ERR: 1} and
+                         df.lin(l[3], pb) == {A_BND: 1} for l in lits)
+                lo = any(l[0] == "cmp" and l[1] in ("ge", "gt") and df.lin(l[2], pb) == {A_CUR: 1, A_ERR: 1} and
+                         df.lin(l[3], pb) == {A_BND: -1} for l in lits)
                 if up and lo:
                     continue
                 bad.append("returns the unclamped error although current + error is not known to be within +-bound (%s)" % lt)
